@@ -443,6 +443,7 @@ pub fn run(tier: &str) -> i32 {
     if winners.len() < 10 {
         rep.machinery("vacuity guard: too few distinct winner sets");
     }
+    cutover_races(&mut rep, tier);
     rep.finish()
 }
 
@@ -452,6 +453,10 @@ pub fn replay(v: &serde_json::Value) -> i32 {
         router_histories(&mut rep, 0);
         println!("router history {:?}: re-run `./check C13 quick` (histories are enumerated in microseconds)", v["updates"]);
         return 0;
+    }
+    if !v["params"]["cutover_race"].is_null() {
+        let p: CutoverRace = serde_json::from_value(v["params"]["cutover_race"].clone()).expect("cutover_race");
+        return super::replay_schedule(cutover_factory(p), v);
     }
     let prog: Program = serde_json::from_value(v["params"].clone()).expect("params");
     super::replay_schedule(factory(prog), v)
@@ -483,4 +488,155 @@ pub fn stress_local(rounds: usize) -> (usize, usize) {
         }
     }
     (rounds, both_ok)
+}
+
+// ---------------------------------------------------------------------------------------------------------------------
+// C13 (c): the fence as its callers use it. A shard splitter's cut-over (which deactivates the old shard with the
+// generation it read) races with another node's correctly fenced update of the same shard (a leader move). Whatever
+// the interleaving, a writer that read the document before the other one wrote must lose: if the leader move was
+// acknowledged its changes are in the stored document, if the cut-over was acknowledged the shard is pending
+// deletion, and the stored generation counts the acknowledged updates.
+// ---------------------------------------------------------------------------------------------------------------------
+
+const OLD: &str = "old-shard";
+
+#[derive(Debug, Clone, serde::Serialize, serde::Deserialize)]
+pub struct CutoverRace {
+    pub backend: String,
+}
+
+pub struct CutoverScenario {
+    p: CutoverRace,
+    mem: Arc<dyn ObjectStore>,
+    local: Arc<LocalMetadataClient>,
+    log: Arc<StoreLog>,
+    /// (cut-over result, leader-move result: Some(generation it was based on, ok))
+    res: Arc<Mutex<(Option<Result<(), String>>, Option<(u64, Result<(), String>)>)>>,
+}
+
+fn old_doc() -> ShardMetadata {
+    ShardMetadata {
+        shard_id: OLD.into(),
+        generation: 0,
+        key_range: (vec![0u8; 8], vec![255u8; 8]),
+        replicas: vec![cardinalsin::sharding::ReplicaInfo { replica_id: "replica-1".into(), node_id: "node-A".into(), is_leader: true }],
+        state: ShardState::Active,
+        min_time: 0,
+        max_time: 10_000,
+    }
+}
+
+#[async_trait(?Send)]
+impl Scenario for CutoverScenario {
+    async fn setup(&mut self, ctl: &Ctl) {
+        let os = self.p.backend == "object-store";
+        let init: Arc<dyn MetadataClient> = if os { Arc::new(os_client(self.mem.clone())) } else { self.local.clone() };
+        init.update_shard_metadata(OLD, &old_doc(), 0).await.expect("old shard");
+        init.start_split(OLD, vec!["new-a".into(), "new-b".into()], 5_000i64.to_be_bytes().to_vec()).await.expect("start_split");
+        init.update_split_progress(OLD, 1.0, cardinalsin::sharding::SplitPhase::Backfill).await.expect("backfill done");
+        let client = |node: &str| -> Arc<dyn MetadataClient> {
+            if os {
+                let gs = GatedStore::new(self.mem.clone(), node, ctl, &self.log);
+                Arc::new(os_client(gs as Arc<dyn ObjectStore>))
+            } else {
+                GatedMeta::new(self.local.clone(), node, ctl)
+            }
+        };
+        let (ca, cb) = (client("A"), client("B"));
+        let data = self.mem.clone();
+        let res = self.res.clone();
+        ctl.spawn("A", "A", async move {
+            let sp = cardinalsin::sharding::ShardSplitter::new(ca, data);
+            let r = sp.cutover(OLD).await.map_err(|e| format!("{e:?}"));
+            res.lock().unwrap().0 = Some(r);
+        });
+        let res = self.res.clone();
+        ctl.spawn("B", "B", async move {
+            let cur = match cb.get_shard_metadata(OLD).await {
+                Ok(Some(m)) => m,
+                other => {
+                    res.lock().unwrap().1 = Some((0, Err(format!("read failed: {other:?}"))));
+                    return;
+                }
+            };
+            let mut upd = cur.clone();
+            upd.replicas = vec![cardinalsin::sharding::ReplicaInfo { replica_id: "replica-1".into(), node_id: "node-B".into(), is_leader: true }];
+            upd.max_time = 20_000;
+            let r = cb.update_shard_metadata(OLD, &upd, cur.generation).await.map_err(|e| format!("{e:?}"));
+            res.lock().unwrap().1 = Some((cur.generation, r));
+        });
+    }
+
+    async fn finish(&mut self, ctl: &Ctl) -> Finish {
+        let mut f = Finish::default();
+        let unfinished = ctl.unfinished_actors();
+        if !unfinished.is_empty() {
+            f.violations.push(Violation { sig: "C13:cutover-race:stuck".into(), msg: format!("never finished: {unfinished:?}") });
+            return f;
+        }
+        for (a, m) in ctl.panics() {
+            f.violations.push(Violation { sig: "C13:cutover-race:panic".into(), msg: format!("{a} panicked: {m}") });
+        }
+        let (a, b) = self.res.lock().unwrap().clone();
+        let fresh: Arc<dyn MetadataClient> = if self.p.backend == "object-store" { Arc::new(os_client(self.mem.clone())) } else { self.local.clone() };
+        let stored = match fresh.get_shard_metadata(OLD).await.ok().flatten() {
+            Some(m) => m,
+            None => {
+                f.violations.push(Violation { sig: "C13:cutover-race:old-shard-gone".into(), msg: "the old shard's document disappeared".into() });
+                return f;
+            }
+        };
+        let a_ok = matches!(a, Some(Ok(())));
+        let b_ok = matches!(b, Some((_, Ok(()))));
+        let desc = format!("cut-over -> {a:?}; leader move (based on generation {:?}) -> {:?}; stored: generation {} state {:?} leader {:?} max_time {}", b.as_ref().map(|x| x.0), b.as_ref().map(|x| x.1.clone()), stored.generation, stored.state, stored.replicas.first().map(|r| r.node_id.clone()), stored.max_time);
+        if b_ok && (stored.replicas.first().map(|r| r.node_id.as_str()) != Some("node-B") || stored.max_time != 20_000) {
+            f.violations.push(Violation { sig: "C13:cutover-race:acknowledged-update-overwritten-by-a-writer-on-older-state".into(), msg: format!("the leader move was acknowledged, yet the stored document does not carry it: {desc}") });
+        }
+        if a_ok && !matches!(stored.state, ShardState::PendingDeletion { .. }) {
+            f.violations.push(Violation { sig: "C13:cutover-race:acknowledged-deactivation-overwritten-by-a-writer-on-older-state".into(), msg: format!("the cut-over was acknowledged, yet the old shard is not pending deletion: {desc}") });
+        }
+        let want_gen = 1 + a_ok as u64 + b_ok as u64;
+        // (a cut-over that fails may still have deactivated the shard before failing on a later step)
+        if a_ok && stored.generation != want_gen {
+            f.violations.push(Violation { sig: "C13:cutover-race:stored-generation".into(), msg: format!("stored generation {} != 1 + acknowledged updates ({want_gen}): {desc}", stored.generation) });
+        }
+        if let Some(Err(e)) = &a {
+            if e.contains("Stale") {
+                f.flags.push("cutover_rejected_as_stale".into());
+            }
+        }
+        if let Some((_, Err(e))) = &b {
+            if e.contains("Stale") {
+                f.flags.push("leader_move_rejected_as_stale".into());
+            }
+        }
+        if a_ok && b_ok {
+            f.flags.push("both_acknowledged".into());
+        }
+        f.outcome = format!("a_ok={a_ok} b_ok={b_ok} gen={} state={:?} leader={:?}", stored.generation, std::mem::discriminant(&stored.state), stored.replicas.first().map(|r| r.node_id.clone()));
+        f
+    }
+}
+
+pub fn cutover_factory(p: CutoverRace) -> ScenarioFactory {
+    Arc::new(move || Box::new(CutoverScenario { p: p.clone(), mem: new_mem(), local: Arc::new(LocalMetadataClient::new()), log: StoreLog::new(), res: Arc::new(Mutex::new((None, None))) }) as Box<dyn Scenario>)
+}
+
+fn cutover_races(rep: &mut Report, tier: &str) {
+    for backend in ["in-memory", "object-store"] {
+        let p = CutoverRace { backend: backend.into() };
+        let bounds = Cost { preempt: if backend == "in-memory" { 1000 } else if tier == "thorough" { 4 } else { 3 }, ..Cost::ZERO };
+        let cfg = ExploreConfig { bounds, use_cache: false, wall_cap: Duration::from_secs(if tier == "thorough" { 600 } else { 40 }), max_steps: 400, ..Default::default() };
+        let st = explore(cutover_factory(p.clone()), &cfg);
+        println!(
+            "  C13 (c) cut-over vs leader move/{:<12} executions={:<7} transitions={:<8} depth={:<3} outcomes={:<3} violation-sigs={:<2} {:.1}s{}",
+            backend, st.executions, st.transitions, st.max_depth, st.outcomes.len(), st.violations.len(), st.wall_s, if st.capped { " CAPPED" } else { "" }
+        );
+        for need in ["cutover_rejected_as_stale", "leader_move_rejected_as_stale", "both_acknowledged"] {
+            if !st.flags.contains_key(need) && st.violations.is_empty() {
+                rep.machinery(format!("vacuity guard: cut-over race on {backend}: no execution showed `{need}`"));
+            }
+        }
+        rep.absorb_explore(&format!("cut-over vs leader move/{backend}"), &json!({"cutover_race": p}), &st, bounds);
+    }
 }
